@@ -140,6 +140,26 @@ Definition graph_add_build (fixed : bool) (l : loader) (b : lbuild) : outcome lo
   Ok (mkLoader files (l_builds l ++ [b']) (l_defaults l) (l_rules l) (l_pools l) (l_builddir l)
                (l_warnings l ++ warns)).
 
+(* the magic $in/$out variables of a build (explicit inputs/outputs, as listed before
+   duplicate outputs are dropped) *)
+Definition implicit_env (l : loader) (pb : pbuild) (ins outs : list nat) : env :=
+  [ (bs "in", [Lit (join_names l (firstn (pb_explicit_ins pb) ins) 32%N)]);
+    (bs "in_newline", [Lit (join_names l (firstn (pb_explicit_ins pb) ins) 10%N)]);
+    (bs "out", [Lit (join_names l (firstn (pb_explicit_outs pb) outs) 32%N)]);
+    (bs "out_newline", [Lit (join_names l (firstn (pb_explicit_outs pb) outs) 10%N)]) ].
+
+(* the `lookup` closure of Loader::add_build: a binding in the build block is expanded in file
+   scope only; otherwise the rule's binding is expanded with $in/$out, then the build block,
+   then file scope *)
+Definition attr_lookup (bvars rule : varlist) (implicit fenv : env) (key : bytes) : option bytes :=
+  match assoc_b key bvars with
+  | Some v => Some (evaluate [fenv] v)
+  | None => match assoc_b key rule with
+            | Some v => Some (evaluate [implicit; bvars; fenv] v)
+            | None => None
+            end
+  end.
+
 (* Loader::add_build *)
 Definition loader_add_build (fixed : bool) (l : loader) (filename : bytes) (fvars : vars) (pb : pbuild)
   : outcome loader :=
@@ -151,19 +171,8 @@ Definition loader_add_build (fixed : bool) (l : loader) (filename : bytes) (fvar
   match assoc_b (pb_rule pb) (l_rules l) with
   | None => Err (bs "unknown rule " ++ str_debug (pb_rule pb))
   | Some rule =>
-    let implicit : env :=
-      [ (bs "in", [Lit (join_names l (firstn (pb_explicit_ins pb) ins) 32%N)]);
-        (bs "in_newline", [Lit (join_names l (firstn (pb_explicit_ins pb) ins) 10%N)]);
-        (bs "out", [Lit (join_names l (firstn (pb_explicit_outs pb) outs) 32%N)]);
-        (bs "out_newline", [Lit (join_names l (firstn (pb_explicit_outs pb) outs) 10%N)]) ] in
-    let lookup := fun key =>
-      match assoc_b key (pb_vars pb) with
-      | Some v => Some (evaluate [fenv] v)
-      | None => match assoc_b key rule with
-                | Some v => Some (evaluate [implicit; pb_vars pb; fenv] v)
-                | None => None
-                end
-      end in
+    let implicit := implicit_env l pb ins outs in
+    let lookup := attr_lookup (pb_vars pb) rule implicit fenv in
     do showinc <- (match lookup (bs "deps") with
                    | None => Ok false
                    | Some d => if bytes_eqb d (bs "gcc") then Ok false
